@@ -368,8 +368,9 @@ class Monitors:
             mask = pm.in_window(x, lo_all[i], hi_all[i])
             n = int(mask.sum())
             if i < len(rec['peaks']) and rec['peaks'][i]['n'] != n:
-                ctx.count('window_selection_differs_from_lo<=x<hi')
-                continue
+                # the fit saw other points than lo <= x < hi of the window it reports; the
+                # statistics are still judged against the data in the reported window
+                ctx.count('fitted_points_differ_from_lo<=x<hi_of_reported_window')
             name = r.assessment.name
             pair = _model_pair(r.peak, r.background)
             if pair not in pairs:
